@@ -689,8 +689,8 @@ pub fn run(opts: &Opts) -> Report {
     crate::props::committed_replays(&m, opts, &mut rep);
     // the open known finding shared with C01 is demonstrated through C01's predicate
     crate::props::committed_replays(&crate::props::c01::Partition { long: false, stress: false }, opts, &mut rep);
-    run_sub(&a, opts, opts.tier.pick(20_000, 400_000), &mut rep);
-    run_sub(&m, opts, opts.tier.pick(4000, 60_000), &mut rep);
+    run_sub(&a, opts, opts.tier.pick(60_000, 800_000), &mut rep);
+    run_sub(&m, opts, opts.tier.pick(10_000, 150_000), &mut rep);
     rep
 }
 
